@@ -22,3 +22,27 @@ Definition frame_encode (t : etree) (fl : N) (st : wst) (recs : list wire) : wst
   let st := w_restart fl st in
   let st := fold_left (fun st a => enc [] t a st) recs st in
   (w_clear st, emit_data_frame_content st t (N.of_nat (length recs))).
+
+(* what the writer's SizeLimiter has accumulated: every encoder accounts the bits/bytes it
+   appends to its own column (AddFrameBits / AddFrameBytes), padding and the size table excluded *)
+Definition wst_frame_bits (st : wst) : N :=
+  PM.fold (fun _ x acc => acc + N.of_nat (length (wc_bits x)) + 8 * N.of_nat (length (wc_bytes x)))
+          (w_cols st) 0.
+
+(* lower bound of the dictionary accounting (stringdict.go: len + unsafe.Sizeof(string) = len + 16) *)
+Definition wst_strdict_bytes (st : wst) : N :=
+  PM.fold (fun _ d acc => fold_left (fun a s => a + N.of_nat (length s) + 16) d acc) (w_sdict st) 0.
+
+(* number of struct dictionary entries (RefNum 0 = nil excluded), per dictionary id *)
+Definition wst_tdict_counts (st : wst) : list (positive * N) :=
+  PM.fold (fun k n acc => (k, n - 1) :: acc) (w_tlen st) [].
+
+(* per-record accounting inside one frame: cumulative frame bits after each record *)
+Definition frame_encode_trace (t : etree) (fl : N) (st : wst) (recs : list wire)
+  : wst * list (N * N * list (positive * N)) :=
+  let st := w_restart fl st in
+  fold_left (fun (acc : wst * list (N * N * list (positive * N))) a =>
+               let '(st, tr) := acc in
+               let st' := enc [] t a st in
+               (st', tr ++ [(wst_frame_bits st', wst_strdict_bytes st', wst_tdict_counts st')]))
+            recs (st, []).
